@@ -106,7 +106,8 @@ class struct(_composite_base):
         lhs = getattr(self, name)
         if isinstance(rhs, base_array):
             if codec_kind.is_composite(rhs._TYPE):
-                if rhs._DYNAMIC:
+                if rhs._BOUND or not rhs._max_len:
+                    # counted (dynamic or limited) and greedy arrays: the copy gets as many elements as the source
                     del lhs[:]
                     lhs.extend(rhs[:])
                 else:
